@@ -7,12 +7,17 @@ from cpverif import spec as S
 from cpverif.lib import L
 
 
-def chart_text(res: int, tempo, sections: dict[str, list[str]], events=()) -> str:
+def chart_text(res: int, tempo, sections: dict[str, list[str]], events=(), fmt: int = 0) -> str:
     secs = [("Song", [f"Resolution = {res}"]),
             ("SyncTrack", ["0 = TS 4"] + [f"{t} = B {n}" for t, n in tempo]),
             ("Events", [S.event_line(e) for e in events])]
     secs += [(h, body) for h, body in sections.items()]
-    return S.render_sections(secs)
+    if not fmt:
+        return S.render_sections(secs)
+    out: list[str] = []
+    for name, body in secs:
+        out += [f"[{name}]", "{"] + [S.format_line(b, fmt, i, name) for i, b in enumerate(body)] + ["}"]
+    return "\n".join(out) + "\n"
 
 
 def get_track(chart, header: str):
@@ -20,9 +25,9 @@ def get_track(chart, header: str):
     return chart.instrument_tracks[L.Instrument[iname]][L.Difficulty[dname]]
 
 
-def parse_track(ctx, res: int, tempo, lines: list[str], header: str, rc):
+def parse_track(ctx, res: int, tempo, lines: list[str], header: str, rc, fmt: int = 0):
     """Returns (chart, track) or (None, None) after reporting a violation."""
-    text = chart_text(res, tempo, {header: lines})
+    text = chart_text(res, tempo, {header: lines}, fmt=fmt)
     try:
         chart = L.parse(text)
     except Exception as e:  # noqa: BLE001
